@@ -27,6 +27,7 @@ META['level_text'] = (
     'Theorems over Model/Typing.v for every spec built from Bool/Int/Float/Str/Enum/List/Tuple/Dict/Object/Union/Any with any ranges, sizes, flags and nesting: '
     'apply idempotent and default acceptable (every class incl. Union under the decidable union_plain proviso), compatibility sound for the code as it is under a syntactic avoids hypothesis '
     '(Union receivers under the decidable union_safe proviso), extension narrows / base compatible (children incl. frozen and Enum ones; no Union / Dict schema), schema shared-field corollary; '
+    'Dict schema extension when the child declares no new key, schema-level is_compatible soundness, compat reflexivity, frozen base, Union base and Union child with safe dispatch; '
     'refutation witnesses for every dropped hypothesis; see design/C04.md for the exact statements (partial ones are named _partial). '
     'Tie: the model is run against ValueSpec.apply / is_compatible / extend of the working tree on every generated case; '
     'a direct oracle re-checks the containments with the real library on boundary and random values.')
